@@ -17,7 +17,7 @@ func description(b []byte) ([]byte, error) {
 		return b, err
 	}
 
-	b = bytes.TrimLeft(b, "\r\n")
+	b = trimLeadingBlankLines(b)
 	b = bytes.TrimRight(b, "\r\n\t ")
 
 	lines := bytes.Split(b, []byte{'\n'})
@@ -28,6 +28,18 @@ func description(b []byte) ([]byte, error) {
 	}
 
 	return bytes.Join(lines, []byte{'\n'}), nil
+}
+
+// trimLeadingBlankLines removes the lines in front of the text which are empty
+// or hold nothing but blanks. The indentation of the first line of the text is kept.
+func trimLeadingBlankLines(b []byte) []byte {
+	for {
+		i := bytes.IndexByte(b, '\n')
+		if i < 0 || len(bytes.Trim(b[:i], " \t")) != 0 {
+			return b
+		}
+		b = b[i+1:]
+	}
 }
 
 // descriptionRemoveParentheses - removes parentheses and their accompanying whitespace and new line characters. Checks
